@@ -21,7 +21,7 @@ TEXTOPS = ["ta", "tb", "za", "zb", "ua", "ub", "ga", "gb"]     # in-place modifi
 CONTOPS = ["aeqb", "beqa", "aeqa", "wa", "wb", "ga", "gb", "ga", "gb", "ca", "cb", "da", "db"]
 OPS = {"string": ["aeqb", "beqa", "aeqa", "wa", "wb", "ca", "cb", "da", "db"] + TEXTOPS,
        "variant": ["aeqb", "beqa", "aeqa", "wa", "wb", "ca", "cb", "da", "db", "la", "lb", "oa", "ob", "la", "oa"] + TEXTOPS,
-       "ptr": ["aeqb", "beqa", "aeqa", "ca", "cb", "sw", "sw", "da", "db"],
+       "ptr": ["aeqb", "beqa", "aeqa", "ca", "cb", "sw", "sw", "da", "db", "na", "nb", "na"],
        "varr": CONTOPS, "vlist": CONTOPS, "vmap": CONTOPS, "xelem": CONTOPS,
        "xtext": ["aeqb", "beqa", "aeqa", "wa", "wb", "wa", "wb", "ca", "cb", "da", "db"]}
 
@@ -122,7 +122,7 @@ def run(ctx):
     check_runs(ctx, binary, runs, "random")
     # systematically: every schedule with at most 2 (thorough: 3) preemptions of small programs, for every payload kind
     SMALL = {"text": [[["wa", "aeqb"], ["ta", "da"]], [["za", "beqa"], ["ua"], ["da", "db"]], [["aeqb", "wb"], ["wa", "beqa"]]],
-             "ptr": [[["sw", "ca"], ["aeqb", "da"]], [["aeqb", "sw"], ["da", "sw"], ["cb"]]],
+             "ptr": [[["sw", "ca"], ["aeqb", "da"]], [["aeqb", "sw"], ["da", "sw"], ["cb"]], [["na", "aeqb"], ["da", "nb"]], [["na", "na"], ["nb", "sw"], ["da"]]],
              "cont": [[["ga", "wa"], ["da"]], [["wa", "aeqb"], ["ga", "db"], ["ca"]], [["beqa", "gb"], ["wa", "da"]]]}
     runs = []
     for kind in ("string", "variant", "xtext", "ptr", "varr", "vlist", "vmap", "xelem"):
